@@ -66,6 +66,7 @@ pub struct PublicInput {
 
 impl StarkProof {
     const COMPONENT_HEIGHT: u32 = 16;
+    const N_DYNAMIC_PARAMS: usize = 340;
     pub fn stark_config(&self) -> anyhow::Result<StarkConfig> {
         let stark = &self.proof_parameters.stark;
         let n_verifier_friendly_commitment_layers =
@@ -170,10 +171,15 @@ impl StarkProof {
         alpha: BigUint,
     ) -> anyhow::Result<stark_proof::PublicInput> {
         let continuous_page_headers =
-            Self::continuous_page_headers(&public_input.public_memory, z, alpha);
+            Self::continuous_page_headers(&public_input.public_memory, z, alpha)?;
         let main_page = Self::main_page(&public_input.public_memory)?;
         let dynamic_params = public_input.dynamic_params.unwrap_or_default();
-        let memory_segments = Builtin::sort_segments(public_input.memory_segments)
+        // The verifier's DynamicParams has exactly this many fields, filled in key order.
+        anyhow::ensure!(
+            dynamic_params.is_empty() || dynamic_params.len() == Self::N_DYNAMIC_PARAMS,
+            "Invalid number of dynamic params"
+        );
+        let memory_segments = Builtin::sort_segments(public_input.memory_segments)?
             .into_iter()
             .map(|s| SegmentInfo { begin_addr: s.begin_addr, stop_ptr: s.stop_ptr })
             .collect::<Vec<_>>();
@@ -224,9 +230,9 @@ impl StarkProof {
         public_memory: &[PublicMemoryElement],
         z: BigUint,
         alpha: BigUint,
-    ) -> Vec<(Felt, Felt, Felt, Felt)> {
+    ) -> anyhow::Result<Vec<(Felt, Felt, Felt, Felt)>> {
         let (_pages, page_prods) =
-            Self::get_pages_and_products(public_memory, z.clone(), alpha.clone());
+            Self::get_pages_and_products(public_memory, z.clone(), alpha.clone())?;
 
         let mut start_address: HashMap<Felt, Felt> = HashMap::new();
         let mut size: HashMap<Felt, Felt> = HashMap::new();
@@ -235,7 +241,9 @@ impl StarkProof {
         for access in public_memory {
             let page_id = Felt::from(access.page);
             let addr = Felt::from(access.address);
-            let val = Felt::from_hex(&access.value).unwrap();
+            let val = Felt::from(
+                parse_field_value(&access.value).ok_or(anyhow::anyhow!("Invalid memory value"))?,
+            );
 
             start_address.entry(page_id).or_insert(addr);
             if page_id == Felt::ZERO {
@@ -245,14 +253,14 @@ impl StarkProof {
             // Ensure the address is correct
             let current_size = data.entry(page_id).or_default().len();
             let expected_address = start_address.get(&page_id).unwrap() + Felt::from(current_size);
-            assert_eq!(addr, expected_address);
+            anyhow::ensure!(addr == expected_address, "Continuous page is not contiguous");
 
             data.get_mut(&page_id).unwrap().push(val);
             *size.entry(page_id).or_insert(Felt::ZERO) += Felt::ONE;
         }
 
         let n_pages = size.len() + 1; // +1 because size does not count page 0
-        assert_eq!(page_prods.len(), n_pages);
+        anyhow::ensure!(page_prods.len() == n_pages, "Invalid pages");
 
         let mut headers = Vec::new();
         let mut sorted_keys: Vec<_> = size.keys().collect();
@@ -260,7 +268,7 @@ impl StarkProof {
 
         for (i, page_id) in sorted_keys.into_iter().enumerate() {
             let page_index = i + 1;
-            assert_eq!(Felt::from(page_index), *page_id);
+            anyhow::ensure!(Felt::from(page_index) == *page_id, "Page ids are not consecutive");
             let hash_value = Self::compute_hash_on_elements(data.get(page_id).unwrap());
             let header = (
                 *start_address.get(page_id).unwrap(),
@@ -271,7 +279,7 @@ impl StarkProof {
             headers.push(header);
         }
 
-        headers
+        Ok(headers)
     }
     fn compute_hash_on_elements(data: &[Felt]) -> Felt {
         let hash = data.iter().fold(Felt::ZERO, |acc, value| pedersen_hash(&acc, value));
@@ -281,7 +289,7 @@ impl StarkProof {
         public_memory: &[PublicMemoryElement],
         z: BigUint,
         alpha: BigUint,
-    ) -> (HashMap<Felt, Vec<Felt>>, HashMap<Felt, Felt>) {
+    ) -> anyhow::Result<(HashMap<Felt, Vec<Felt>>, HashMap<Felt, Felt>)> {
         let mut pages = HashMap::new();
         let mut page_prods = HashMap::new();
 
@@ -291,7 +299,9 @@ impl StarkProof {
         for cell in public_memory {
             let page_id = Felt::from(cell.page);
             let addr = Felt::from(cell.address);
-            let val = Felt::from_hex(&cell.value).unwrap();
+            let val = Felt::from(
+                parse_field_value(&cell.value).ok_or(anyhow::anyhow!("Invalid memory value"))?,
+            );
 
             // Insert or get the vector for the current page_id
             let page = pages.entry(page_id).or_insert_with(Vec::new);
@@ -304,7 +314,7 @@ impl StarkProof {
             *page_prod *= product;
         }
 
-        (pages, page_prods)
+        Ok((pages, page_prods))
     }
     fn stark_unsent_commitment(&self, annotations: &Annotations) -> StarkUnsentCommitment {
         StarkUnsentCommitment {
